@@ -84,6 +84,12 @@ def run_family(run, fam, cases, known_classes):
     seen_nt = set()
     for case, il, ml in zip(cases, impl, model):
         il = fam.normal(il if il is not None else "MISSING")
+        if ml == "HANG":
+            # the EXTRACTED MODEL did not answer this line within the per-line limit of the line-by-line rerun (core.run_lines:
+            # a shard of the driver was too slow as a whole): an infrastructure time-out, not an answer of the model — the case
+            # is counted and left out of the comparison (it cannot be held against the implementation)
+            st["model_timeouts"] = st.get("model_timeouts", 0) + 1
+            continue
         mpart, spart, cls = fam.split(ml if ml is not None else "MISSING")
         if classify:
             cls = classify(case, il, cls)
